@@ -1,11 +1,14 @@
 #!/bin/sh
-# run every claimed check (quick tier by default) on the current tree; prints one line per check
+# run every claimed check (quick tier by default) on the current tree; prints one line per check (with the exit status of the
+# check: 0 = held, 1 = violation reported, anything else = the check itself failed)
 tier=${1:-quick}
 cd /verif
 for c in $(python3 -c "import json; print(' '.join(x['property_id'] for x in json.load(open('MANIFEST.json'))['checks']))"); do
   s=$(date +%s)
-  out=$(bin/check $c $tier 2>/dev/null | grep -E "^(VIOLATION|KNOWN-FINDING)" | cut -c1-120)
+  all=$(bin/check $c $tier 2>&1)
   rc=$?
+  out=$(echo "$all" | grep -E "^(VIOLATION|KNOWN-FINDING)" | cut -c1-120)
   e=$(date +%s)
-  echo "$c $((e-s))s $(echo "$out" | grep -c VIOLATION) violations $(echo "$out" | grep -c KNOWN-FINDING) known"
+  echo "$c $((e-s))s exit=$rc $(echo "$out" | grep -c VIOLATION) violations $(echo "$out" | grep -c KNOWN-FINDING) known"
+  if [ $rc -gt 1 ]; then echo "$all" | tail -5; fi
 done
